@@ -209,7 +209,9 @@ class Program:
         """{type parameter name: written type argument} for a call `f::<A, B>(..)` of a generic function of the crates under
         analysis; the parameter names are read from the function's source header"""
         names = self.fn_generics(fn)
-        if not names or len(names) != len(targs): return None
+        # `impl Trait` parameters are appended to the written generics as anonymous ones: bind the written ones only
+        if not names or len(names) > len(targs): return None
+        targs = targs[:len(names)]
         out = {}
         for n, t in zip(names, targs):
             if re.fullmatch(r"[A-Z]\w*", n) and not re.fullmatch(r"[A-Z]\w?", t.strip()) and "{closure" not in t and not t.strip().startswith("impl "):
@@ -275,7 +277,22 @@ class Program:
         td = self.types.lookup(ty, cur_crate or self.crate)
         if td is None or td.kind != "enum":
             raise Unsupported(f"unknown enum {ty}")
-        return td.variants[td.variant_index(variant)].discr
+        return self._discr_value(td, td.variant_index(variant))
+
+    def _discr_value(self, td, idx):
+        """declared discriminant; `= CONST` expressions are read from the crate's MIR constants, implicit ones continue from the previous variant"""
+        v = td.variants[idx]
+        if isinstance(v.discr, int): return v.discr
+        if isinstance(v.discr, str):
+            name = v.discr.strip()
+            for c in [td.crate] + [c for c in self.funcs if c != td.crate]:
+                for n, f in self.funcs.get(c, {}).items():
+                    if f.kind == "constval" and n.split("::")[-1] == name.split("::")[-1]:
+                        m = re.match(r"^(-?[\d_]+)_?[ui]\w+$", f.src.strip())
+                        if m: return int(m.group(1).replace("_", ""))
+            raise Unsupported(f"discriminant expression `{name}` of {td.name}::{v.name}")
+        if idx == 0: return 0
+        return self._discr_value(td, idx - 1) + 1
 
     def func_hash(self, f):
         h = hashlib.sha256(repr((f.params, f.ret, sorted(f.blocks.items()))).encode()).hexdigest()[:12]
